@@ -63,6 +63,13 @@ fn check_inner(sub: &str, g: &G, toks: &[char], l: &mut Local) -> CaseRes {
         l.bump("skipped_expensive_backtracking");
         return Ok(());
     }
+    // (0) the grammar can be BUILT in every style ("may be cloned, boxed and dropped freely": also while it is being defined)
+    for (name, style) in [("recursive()", RecStyle::Func), ("declare/define", RecStyle::DeclareDefine), ("early clone, declaring handle dropped", RecStyle::EarlyClone)] {
+        if quietly(|| drop(build_with::<&str, RichS>(g, false, style))).is_err() {
+            let m = crate::run::LAST_PANIC.with(|p| p.borrow_mut().take()).unwrap_or_default();
+            return fail(case, "C12/build-panic", format!("building the parser with {} panicked: {}", name, m));
+        }
+    }
     // (1) reference
     let r = peg_diff(ID, sub, "str", g, toks, l)?;
     if r.stats.fuel_out {
@@ -282,6 +289,8 @@ fn depth_worker_inner(shape: &str, style: &str, mode: &str, depth: usize, trunca
     let input: String = match shape {
         "paren" | "fat" => format!("{}x{}", "(".repeat(depth), ")".repeat(if truncated { depth.saturating_sub(1) } else { depth })),
         "list" => format!("{}x{}", "[".repeat(depth), "]".repeat(if truncated { depth.saturating_sub(1) } else { depth })),
+        // every level has a sibling BEFORE the element that nests further: [x,[x,[x, ... ]]]
+        "sib" => format!("{}x{}", "[x,".repeat(depth), "]".repeat(if truncated { depth.saturating_sub(1) } else { depth })),
         _ => format!("{}{}", "-".repeat(depth), if truncated { "" } else { "x" }),
     };
     fn run<'a, P: Parser<'a, &'a str, usize, EC<'a>>>(p: P, mode: &str, input: &'a str) -> (Option<usize>, usize, bool) {
@@ -308,7 +317,8 @@ fn depth_worker_inner(shape: &str, style: &str, mode: &str, depth: usize, trunca
         ("paren", _) => run(paren_decl(), mode, &input),
         ("fat", "func") => run(fat_func(), mode, &input),
         ("fat", _) => run(fat_decl(), mode, &input),
-        ("list", "func") => run(list_func(), mode, &input),
+        ("list", "func") | ("sib", "func") => run(list_func(), mode, &input),
+        ("sib", _) => run(list_decl(), mode, &input),
         ("list", _) => run(list_decl(), mode, &input),
         _ => run(pratt_prefix(), mode, &input),
     };
@@ -448,6 +458,14 @@ pub fn run(tier: Tier, seed: u64) -> i32 {
                         jobs.push((shape.into(), style.into(), mode.into(), *d, tr));
                     }
                 }
+            }
+        }
+    }
+    // a sibling recursive call returns before the deepening one is made, at every level
+    for style in ["func", "decl"] {
+        for mode in ["parse", "check"] {
+            for d in [1_000usize, 100_000] {
+                jobs.push(("sib".into(), style.into(), mode.into(), d, false));
             }
         }
     }
